@@ -3205,6 +3205,40 @@ func (r *Resolver) verifyDNSSEC(ctx context.Context, signer, signed string, resp
 		return
 	}
 
+	if msg == resp {
+		// RFC 4035 §5.2: a DNSKEY RRset is authentic only when it is signed by
+		// a key that a DS of the parent vouches for. VerifyDS above only says
+		// that SOME key of the set matches; without this step any other key
+		// riding in the RRset could sign it — and then everything else in the
+		// zone. Keys taken from the sub-query path went through here when that
+		// DNSKEY answer was itself resolved.
+		anchored := dnssec.DSMatchedKeys(keys, parentdsRR, r.dnssecWork(ctx))
+		if len(anchored) == 0 {
+			return false, dnssec.ErrMissingKSK
+		}
+		keyset := new(dns.Msg)
+		keyset.Question = resp.Question
+		for _, a := range resp.Answer {
+			if !strings.EqualFold(a.Header().Name, signerLower) {
+				continue
+			}
+			switch rr := a.(type) {
+			case *dns.DNSKEY:
+				keyset.Answer = append(keyset.Answer, rr)
+			case *dns.RRSIG:
+				if rr.TypeCovered == dns.TypeDNSKEY {
+					keyset.Answer = append(keyset.Answer, rr)
+				}
+			}
+		}
+		if ok, err = dnssec.VerifyRRSIGWithWork(signer, anchored, keyset, r.dnssecWork(ctx)); err != nil {
+			return false, err
+		}
+		if !ok {
+			return false, nil
+		}
+	}
+
 	// we don't need to verify rrsig questions.
 	if q.Qtype == dns.TypeRRSIG {
 		return false, nil
